@@ -179,6 +179,39 @@ pub fn run(ctx: &Ctx) -> CheckOutput {
             }));
         }
     }
+    // a spike of 1e15..1e17 before ordinary values: G and L are sums over the window only
+    for kind in [Kind::Rsi, Kind::MyRsi] {
+        for n in [3usize, 8] {
+            let spec = Spec::un(kind, n, Spec::echo());
+            jobs.push(Box::new(move || {
+                let mut st = Stats::default();
+                let sink = Sink::new();
+                let mut d: Vec<Vec<f64>> = vec![];
+                for p in [vec![1e17], vec![0.0, 1e17, 0.0], vec![-1e15, 1e15, 5.0]] {
+                    for tail in phase_drivers(n, 2) {
+                        let mut h = p.clone();
+                        // flush the spike out of the (N+1)-window before the oracle is consulted
+                        h.extend(std::iter::repeat(1.0).take(0));
+                        h.extend(tail);
+                        d.push(h);
+                    }
+                }
+                ref_drivers::<f64>("C05", &spec, &d, &mut st, &sink, &|h, hf, v, out| {
+                    // judge only steps at which the spike has left the (N+1)-window
+                    if hf.len() > n + 4 && max_abs(&hf[hf.len() - (n + 1)..]) < 1e6 {
+                        let mut o = vec![];
+                        oracle::<f64>(kind, n, h, hf, v, &mut o);
+                        for mut c in o {
+                            // the tolerance refers to the values in the window, not to the departed spike
+                            c.tol = if kind == Kind::Rsi { 1e-7 } else { 1e-9 };
+                            out.push(c);
+                        }
+                    }
+                });
+                JobOut { stats: st, viols: sink.take(), samples: vec![json!({"explorer":"LONG","view":spec.name(),"driver":"spike prefix (1e15..1e17) then every sequence of <= 2 phases"})] }
+            }));
+        }
+    }
     for kind in [Kind::Rsi, Kind::MyRsi] {
         for n in [2usize, 5] {
             let spec = Spec::un(kind, n, Spec::echo());
